@@ -393,10 +393,17 @@ def gen_hbq_cases(ctx):
     # everything queued (and the error) before the reader starts: the case that lost data before the fix
     cases.append({"mx": 8, "hb": hb, "script": [msg(b"\x01\x02"), msg(hb, role="hb"), msg(b"\x03"), msg(b"\x04\x05", 30)],
                   "ops": "rrrr" + "R" * 6})
+    # the full queue: recvLoop holds the 65th message; a Read hands it over (nothing lost, order kept) ...
+    many = [msg(bytes([1 + i % 200, 1 + i // 200]), None) for i in range(70)]
+    cases.append({"mx": 8, "hb": hb, "script": many[:30] + [msg(hb, role="hb")] + many[30:], "ops": "r" * 67 + "RRR" + "rr" + "R" * 70})
+    cases.append({"mx": 8, "hb": hb, "script": many[:64] + [msg(b"\x09\x09", 33)] + many[65:], "ops": "r" * 66 + "R" * 67})
+    # ... or nobody reads within the interval: recvLoop closes; what was queued is still delivered, then closed
+    for _ in range(1 if quick else 3):
+        cases.append({"mx": 8, "hb": hb, "script": many, "ops": "r" * 66 + "T" + "R" * 66, "interval_ms": 2500})
     rp = replay_cases(ctx, "hbq_cases")
     for c in rp:
         hbb = bytes.fromhex(c["hb"])
-        cases.insert(0, {"mx": c["mx"], "hb": hbb, "ops": c["ops"],
+        cases.insert(0, {"mx": c["mx"], "hb": hbb, "ops": c["ops"], "interval_ms": c.get("interval_ms", 0),
                          "script": [msg(bytes.fromhex(m["d"]), None if m["e"] in (None, -1) else m["e"],
                                         "hb" if bytes.fromhex(m["d"]) == hbb else "data") for m in c["script"]]})
     if ctx.replay:
@@ -406,7 +413,7 @@ def gen_hbq_cases(ctx):
 
 def run_hbq(ctx):
     cases = gen_hbq_cases(ctx)
-    js = [{"mx": c["mx"], "hb": c["hb"].hex(), "ops": c["ops"],
+    js = [{"mx": c["mx"], "hb": c["hb"].hex(), "ops": c["ops"], "interval_ms": c.get("interval_ms", 0),
            "script": [{"d": m["d"].hex(), "e": -1 if m["e"] is None else m["e"]} for m in c["script"]]} for c in cases]
     res, out = yield ("go", "hbq", js)
     if res is None or len(res) != len(cases):
@@ -424,23 +431,28 @@ def run_hbq(ctx):
         if got != [(m["d"], m["e"]) for m in exp[:len(got)]]:
             bad = ("lost-or-reordered", "hbConn.Read returned %s, the stream without heartbeats is %s"
                    % ([(d.hex(), e) for d, e in got], [(m["d"].hex(), m["e"]) for m in exp]))
-        elif closed_seen and len(got) < len(exp) and not any(o["kind"] == 2 and i > next(j for j, x in enumerate(outp) if x["kind"] == 3)
-                                                            for i, o in enumerate(outp)) :
+        elif closed_seen:
             first_closed = next(j for j, x in enumerate(outp) if x["kind"] == 3)
             ngot_before = sum(1 for o in outp[:first_closed] if o["kind"] == 2)
-            nrecv_before = c["ops"][:first_closed].count("r")
-            bad = ("closed-before-drain", "net.ErrClosed reported after %d of %d queued message(s)" % (ngot_before, len(exp)))
+            # everything recvLoop had queued must come out before closed: all of it, or (when the loop gave up
+            # waiting for room, op 'T') the 64 queued messages
+            need = min(len(exp), 64) if "T" in c["ops"] else len(exp)
+            if any(o["kind"] == 2 for o in outp[first_closed:]):
+                bad = ("message-after-closed", "hbConn.Read returned a message after it had reported net.ErrClosed")
+            elif ngot_before < need:
+                bad = ("closed-before-drain", "net.ErrClosed reported after %d of %d queued message(s)" % (ngot_before, need))
         if any(o["kind"] == 2 and o["e"] in (E_HANG, E_PANIC) for o in outp):
             bad = ("hang", "hbConn.Read hung")
         ctx.count((tuple((m["d"], m["e"], m["role"]) for m in c["script"]), c["ops"]),
-                  kind="hbq/%s%s" % ("closed" if closed_seen else "open", "+blocked" if any(o["kind"] == 1 for o in outp) else ""))
+                  kind="hbq/%s%s%s" % ("closed" if closed_seen else "open", "+blocked" if any(o["kind"] == 1 for o in outp) else "",
+                                       "+queue-timeout" if "T" in c["ops"] else ("+full-queue" if c["ops"].startswith("r" * 66) else "")))
         if bad:
             ctx.fail("hbq/" + bad[0], "heartbeat server queue: " + bad[1],
                      {"hbq_cases": [js[cases.index(c)]], "observed": outp})
         terms.append("CHbq %s %s %s %s %s" % (
             gN(c["mx"]), hexs(c["hb"]),
             glist(c["script"], lambda m: "(%s, %s)" % (bspec_in(m["d"]), gopt(m["e"], gN))),
-            glist(c["ops"], lambda ch: gbool(ch == "r")),
+            glist(c["ops"], lambda ch: gN({"r": 0, "R": 1, "T": 2}[ch])),
             glist(outp, lambda o: "(%s, %s, %s)" % (gN(o["kind"]), bspec_obs(bytes.fromhex(o["d"] or "")),
                                                      gopt(None if o["e"] < 0 or o["kind"] != 2 else o["e"], gN)))))
     try:
@@ -991,4 +1003,5 @@ def run(ctx):
     if not only:
         ctx.require_kinds(["read/data-equals-heartbeat", "fc/has-stale-token", "fc/has-blocked", "fc/has-limit",
                            "fc/has-closed-while-blocked", "reg/has-delivered", "reg/has-dup", "reg/has-cancelled",
-                           "lb/has-dup-refused", "wd/closed", "wd/open", "mat/from-secret-concrete-hkdf"])
+                           "lb/has-dup-refused", "wd/closed", "wd/open", "mat/from-secret-concrete-hkdf",
+                           "hbq/closed+queue-timeout"])
